@@ -3,6 +3,7 @@
 package c04
 
 import (
+	"context"
 	"fmt"
 	"github.com/notaryproject/notation-core-go/revocation/result"
 	"math/rand/v2"
@@ -69,6 +70,10 @@ func scenario(c config, behs []string) *sims.Scenario {
 // responder double says it delivered.
 func judge(r *core.Run, sc *sims.Scenario, out *sims.Outcome) {
 	r.Eval(1)
+	if out.Stuck {
+		r.Inconclusive("a call did not return within the watchdog (C09 / C17 decide that): " + sc.Desc())
+		return
+	}
 	if out.Panic != nil {
 		// a crash is C09's business; here the execution is simply not judged
 		r.Count("panicked", 1)
@@ -208,7 +213,22 @@ func run(r *core.Run) int {
 	r.Parallel(len(jobs), func(i int) {
 		j := jobs[i]
 		sc := scenario(j.c, j.behs)
-		out := sc.Run()
+		var out *sims.Outcome
+		if i%5 == 2 && j.c.Entry == "validate" {
+			// the validator has been used before: same chain and responders, the
+			// other signing-time setting; the second call is the one judged
+			first := *sc
+			first.WithST = !sc.WithST
+			env := first.Prepare()
+			env.Run(context.Background())
+			env.Replan(sc)
+			before := len(env.Net.Log())
+			out = env.Run(context.Background())
+			out.Log = out.Log[before:]
+			r.Count("second-call-on-a-used-validator", 1)
+		} else {
+			out = sc.Run()
+		}
 		judge(r, sc, out)
 		if nontrivial(j.behs) {
 			r.Nontrivial(sc.Desc())
@@ -223,7 +243,8 @@ func run(r *core.Run) int {
 		core.Require{Counter: "result-Unknown", Why: "no execution ended Unknown"},
 		core.Require{Counter: "req-GET", Why: "GET encoding never used"},
 		core.Require{Counter: "req-POST", Why: "POST encoding never used"},
-		core.Require{Counter: "with-clean-crl-behind", Why: "no certificate with a clean CRL behind its responders"})
+		core.Require{Counter: "with-clean-crl-behind", Why: "no certificate with a clean CRL behind its responders"},
+		core.Require{Counter: "second-call-on-a-used-validator", Why: "no second call on a used validator"})
 }
 
 func pick(rng *rand.Rand, a []string) string { return a[rng.IntN(len(a))] }
